@@ -123,7 +123,6 @@ def check_windows(repo, rep):
                   "affine E (i+1 in the step simulator / warm-up injection / research helper, i+candles_step in the fast simulator): "
                   "window length = count and right edge = guard expression; in the simulators the sites are found by following the "
                   "input through helpers, aliases and recursive calls (index-flow engine), not by name")
-    sites = [(CANDLE, "inject_warmup_candles_to_store"), (CANDLE, "_get_generated_candles")]
     found = 0
     # the simulators: followed through helpers, aliases and renamed variables by the index-flow engine (vlib/idxflow.py)
     from vlib.idxflow import Flow, Slice
@@ -145,33 +144,25 @@ def check_windows(repo, rep):
                 rep.violation(rid, f"{c.fn}|window", f"{c.fn} (through {' > '.join(c.chain)}): window [{a1.lo!r} : {a1.hi!r}] of the 1m input is aggregated under the guards "
                                                     f"{[(repr(E) + ' % ' + repr(cnt) + ' == 0') for E, cnt in c.mods] or 'none'}: its length must be the guard's count and its right edge the guard's expression")
             rep.instance(rid, f"{sim}|{c.fn}|{' > '.join(c.chain)}", {"site": c.fn, "slice": f"[{a1.lo!r}:{a1.hi!r}]", "guards": [f"{E!r} % {cnt!r} == 0" for E, cnt in c.mods]})
-    for rel, fname in sites:
-        fn = repo.func(rel, fname)
-        for call in [n for n in ast.walk(fn) if isinstance(n, ast.Call) and SL.last(SL.dotted(n.func)) == "generate_candle_from_one_minutes"]:
-            if len(call.args) < 2 or not (isinstance(call.args[1], ast.Subscript) and isinstance(call.args[1].slice, ast.Slice)):
-                rep.violation(rid, f"{fname}|shape", f"{fname}: aggregation input is not a slice of the 1m candles: {norm(call)[:100]}")
+    # warm-up injection and the research helper: the 1m array is a parameter there
+    from vlib.idxflow import ARRAY
+    for rel, fname, param in ((CANDLE, "inject_warmup_candles_to_store", "candles"), (CANDLE, "_get_generated_candles", "trading_candles")):
+        fl = Flow(repo, rel, interest={"generate_candle_from_one_minutes"})
+        fn_ = repo.func(rel, fname)
+        if param not in [a_.arg for a_ in fn_.args.args]:
+            raise AnalysisError(f"{rel}:{fname}: parameter {param} (the 1m candles) not found")
+        fl.run_function(fname, {param: ARRAY})
+        for c in fl.calls:
+            a1 = c.args[1] if len(c.args) > 1 else None
+            if not isinstance(a1, Slice):
+                rep.violation(rid, f"{fname}|shape", f"{fname}: aggregation input is not a slice of the 1m candles: {norm(c.node)[:100]}")
                 continue
             found += 1
-            sl = call.args[1].slice
-            lo, hi = to_poly(sl.lower) if sl.lower is not None else None, to_poly(sl.upper) if sl.upper is not None else None
-            # the statement containing the call
-            stmt = next(s for s in ast.walk(fn) if isinstance(s, ast.stmt) and any(x is call for x in ast.walk(s)) and not any(
-                isinstance(c, ast.stmt) and c is not s and any(x is call for x in ast.walk(c)) for c in ast.iter_child_nodes(s) if isinstance(c, ast.stmt)))
-            tests = _enclosing_ifs(fn, stmt)
-            guard = None
-            for t in tests:
-                if isinstance(t, ast.Compare) and len(t.ops) == 1 and isinstance(t.ops[0], ast.Eq) and isinstance(t.left, ast.BinOp) and isinstance(t.left.op, ast.Mod) \
-                        and isinstance(t.comparators[0], ast.Constant) and t.comparators[0].value == 0:
-                    guard = t
-            if guard is None or lo is None or hi is None:
-                rep.violation(rid, f"{fname}|guard", f"{fname}: aggregation at {norm(call)[:80]} is not guarded by `E % count == 0` (guards: {[norm(t) for t in tests]})")
-                continue
-            E, cnt = to_poly(guard.left.left), to_poly(guard.left.right)
-            ok = E is not None and cnt is not None and hi == E and (hi - lo) == cnt
+            ok = any(a1.hi == E and (a1.hi - a1.lo) == cnt for E, cnt in c.mods)
             if not ok:
-                rep.violation(rid, f"{fname}|window", f"{fname}: window [{norm(sl.lower)} : {norm(sl.upper)}] under guard `{norm(guard)}`: "
-                                                      f"length {hi - lo!r} (must be {cnt!r}), right edge {hi!r} (must be {E!r})")
-            rep.instance(rid, f"{fname}|{norm(guard)}", {"site": fname, "guard": norm(guard), "slice": f"[{norm(sl.lower)}:{norm(sl.upper)}]"})
+                rep.violation(rid, f"{fname}|window", f"{fname}: window [{a1.lo!r} : {a1.hi!r}] of the 1m candles is aggregated under the guards "
+                                                      f"{[(repr(E) + ' % ' + repr(cnt) + ' == 0') for E, cnt in c.mods] or 'none'}: its length must be the guard's count and its right edge the guard's expression")
+            rep.instance(rid, f"{fname}|{' > '.join(c.chain)}", {"site": fname, "slice": f"[{a1.lo!r}:{a1.hi!r}]", "guards": [f"{E!r} % {cnt!r} == 0" for E, cnt in c.mods]})
     if found < 4:
         raise AnalysisError(f"C07-R2: only {found} completed-window sites found (expected 4)")
     rep.floor(rid, 4)
